@@ -28,7 +28,7 @@ pub fn specs() -> Vec<PropSpec> {
     vec![
         PropSpec {
             id: "C01",
-            parts: &[("c01", 480, 6000), ("net", 64, 1500), ("netfaults", 96, 3000)],
+            parts: &[("c01", 480, 6000), ("net", 64, 1500), ("netfaults", 96, 3000), ("netpart", 64, 2000)],
             level: "exploration",
             tags: &["C01"],
             rule: "Each evaluation is one seeded history of 15-45 API \
@@ -41,12 +41,19 @@ pub fn specs() -> Vec<PropSpec> {
                 state-changing operation and at least one caught-up check; \
                 distinct = distinct SHA-256 fingerprints of the full event \
                 log (operations, results, every kv and file-system \
-                mutation).",
+                mutation). Parts net / netfaults / netpart run the same \
+                histories on two instances (CAs on B below parents on A, \
+                all publishing at A) over the simulated network: reliable, \
+                with lost requests and replies, duplicates and delayed \
+                copies, and with instance B cut off and reconnected while \
+                operations continue on A; there the comparison is made \
+                with all instances reachable and, when messages were lost, \
+                after one more refresh round with the faults switched off.",
             assumptions: COMMON_ASSUMPTIONS,
         },
         PropSpec {
             id: "C02",
-            parts: &[("c02", 480, 6000), ("netfaults", 64, 2000)],
+            parts: &[("c02", 480, 6000), ("netfaults", 64, 2000), ("netpart", 48, 1500)],
             level: "exploration",
             tags: &["C02"],
             rule: "Each evaluation is one seeded history biased towards \
@@ -68,7 +75,7 @@ pub fn specs() -> Vec<PropSpec> {
         },
         PropSpec {
             id: "C03",
-            parts: &[("c03", 480, 6000), ("netfaults", 64, 2000)],
+            parts: &[("c03", 480, 6000), ("netfaults", 64, 2000), ("netpart", 48, 1500)],
             level: "exploration",
             tags: &["C03"],
             rule: "Each evaluation is one seeded history biased towards \
